@@ -20,17 +20,32 @@ InDevice(d, c)  == c >= d.lo /\ c < d.hi
 VoxelOf(d, c)   == ((c - d.lo) \div d.vox) + 1          \* 1-based index into the parameter vector
 NVoxels(d)      == (d.hi - d.lo) \div d.vox
 
-\* the documented map.  base[c] = permittivity of cell c before any parameters were applied (the etch backup);
-\* p = parameter vector (p2 values for "continuous"/"etched", 0-based material index for "discrete");
-\* d.mats = the device's materials in their documented order (ascending first permittivity component).
-\* Result: DOUBLED permittivity tensor of every cell.
-CellAfter(base, d, p, c) ==
-    IF ~InDevice(d, c) THEN Dbl(base[c + 1])
-    ELSE LET v == p[VoxelOf(d, c)] IN
-         IF d.kind = "continuous" THEN Blend2(d.mats[1], d.mats[2], v)
-         ELSE IF d.kind = "etched" THEN Blend2(base[c + 1], d.mats[1], v)
-         ELSE Dbl(d.mats[v + 1])
-After(base, d, p) == [ c1 \in 1..Len(base) |-> CellAfter(base, d, p, c1 - 1) ]
+\* blend that starts from a DOUBLED tensor c2 (what is in the cell now): c + p*(T1 - c), doubled.
+\* Exact whenever c2 or v is even (always the case when c2 comes from the placed scene).
+BlendFrom2(c2, T1, v) == [ k \in 1..9 |-> (2 * c2[k] + v * (2 * T1[k] - c2[k])) \div 2 ]
+
+\* one device writes its cells into the array `cur2` (DOUBLED tensors per cell):
+\*   p = parameter vector of that device (p2 values for "continuous"/"etched", 0-based material index for
+\*   "discrete");  d.mats = its materials in their documented order (ascending first permittivity component).
+\*   An etched device blends what is in the cell NOW with its one material.
+WriteDevice(cur2, d, p) ==
+    [ c1 \in 1..Len(cur2) |->
+        LET c == c1 - 1 IN
+        IF ~InDevice(d, c) THEN cur2[c1]
+        ELSE LET v == p[VoxelOf(d, c)] IN
+             IF d.kind = "continuous" THEN Blend2(d.mats[1], d.mats[2], v)
+             ELSE IF d.kind = "etched" THEN BlendFrom2(cur2[c1], d.mats[1], v)
+             ELSE Dbl(d.mats[v + 1]) ]
+\* all devices in the order of the scene's device list, starting from the array `start2`
+RECURSIVE WriteAll(_, _, _, _)
+WriteAll(cur2, devs, ps, k) == IF k > Len(devs) THEN cur2 ELSE WriteAll(WriteDevice(cur2, devs[k], ps[k]), devs, ps, k + 1)
+
+\* the documented map: apply the parameter sets ps (one vector per device) to the PLACED scene `base`
+\* (base[c] = permittivity of cell c after placement - what the etch backup stores).  DOUBLED tensors.
+After(base, devs, ps) == WriteAll([ c1 \in 1..Len(base) |-> Dbl(base[c1]) ], devs, ps, 1)
+InAnyDevice(devs, c) == \E k \in 1..Len(devs) : InDevice(devs[k], c)
+\* cells covered by exactly one device do not depend on the order of the device list
+InOneDevice(devs, c) == Cardinality({ k \in 1..Len(devs) : InDevice(devs[k], c) }) = 1
 
 \* ---------- comparison with observed inverse permittivities ----------
 \* obs = observed inverse-permittivity tensor of one cell, 9 integers in units of 1/S (components the
